@@ -84,7 +84,42 @@ pub fn run(args: &Args, r: &mut Report) {
             }
             r.count("checks-offering-only-the-installed-version", same);
         }
-        let run = run_case(&case, &mut rng);
+        // a third of the start()-mode cases run under the hostile scheduler: control requests at quiescent points
+        // and right after an emission (while the machine is parked on it), a lagging observer, spurious polls, and
+        // every control handle dropped at an arbitrary point (the scheduled operation must go on as before)
+        let hostile = case.setup.start_mode && rng.chance(1, 3);
+        let run = if hostile {
+            use crate::sim::world::Decision;
+            for _ in 0..6 {
+                let p = gen_params(&mut rng);
+                case.script.decisions.push(*rng.pick(&[Decision::Ok(p), Decision::Ok(p), Decision::OkDeferred(p), Decision::TooSoon, Decision::Throttled, Decision::Denied]));
+            }
+            let h = Hostile { ctl_budget: rng.usize(3), ctl_num: 1, ctl_den: 6, spurious: rng.bool(), multi_release: rng.bool(), lag: rng.bool() };
+            let mut lab = format!("hostile:ctl{}", h.ctl_budget);
+            if rng.chance(1, 3) {
+                let n = 1 + rng.usize(14);
+                case.ctl_on_emission.push((n, rng.bool()));
+                lab.push_str(&format!(",ce{}", n));
+                r.count("requests-sent-right-after-an-emission", 1);
+            }
+            if rng.chance(1, 4) {
+                case.drop_handles_after = Some(rng.below(25));
+                lab.push_str(",drop");
+                r.count("cases-dropping-every-handle", 1);
+            }
+            if rng.bool() {
+                // installs that need a reboot wait for permission (refused a few times, pings in between)
+                let apps = case.setup.apps.clone();
+                let l = add_reboot_waits(&mut case.script, &mut rng, false, &apps);
+                lab.push_str(&format!(",{}", l));
+            }
+            case.shape.push(lab);
+            case.embedder_rate = 0;
+            case.max_steps = 8_000;
+            run_hostile(&case, &mut rng, &h)
+        } else {
+            run_case(&case, &mut rng)
+        };
         r.eval(case.shape_key(), case.nontrivial);
         r.interleavings.insert(run.sig);
         let mut m = Mon::default();
